@@ -202,6 +202,28 @@ pub fn run_parallel<F>(cfg: &Cfg, stream: u64, limits: RunLimits, f: F) -> Local
 where
     F: Fn(&mut Local, &mut Rng, u64) + Sync,
 {
+    // crash triage (driver): `--only-stream S` restricts a re-run to one workload stream
+    if let Some(s) = cfg.opt("--only-stream") {
+        if s.parse::<u64>().ok() != Some(stream) {
+            return Local::new();
+        }
+    }
+    // in-flight record: each worker thread notes the case it is about to run in its own 8-byte
+    // slot of `<out>/progress.<stream>.bin`; the file is removed when the workload ends normally.
+    // If the process dies (abort, stack overflow, OOM kill) the driver finds the cases that were
+    // in flight there and re-runs each one alone under resource limits to attribute the crash.
+    let progress_path = format!("{}/progress.{}.bin", cfg.out, stream);
+    let progress = if cfg.only_case.is_none() {
+        std::fs::File::create(&progress_path).ok()
+    } else {
+        None
+    };
+    if let Some(f) = &progress {
+        use std::os::unix::fs::FileExt;
+        let blank = vec![0xFFu8; 8 * cfg.threads.max(1)];
+        let _ = f.write_at(&blank, 0);
+    }
+    let slot_counter = AtomicU64::new(0);
     let next = AtomicU64::new(0);
     let stop = AtomicBool::new(false);
     let merged = Mutex::new(Local::new());
@@ -219,6 +241,8 @@ where
     std::thread::scope(|s| {
         for _ in 0..threads {
             s.spawn(|| {
+                use std::os::unix::fs::FileExt;
+                let slot = slot_counter.fetch_add(1, Ordering::Relaxed);
                 let mut local = Local::new();
                 loop {
                     if stop.load(Ordering::Relaxed) {
@@ -229,6 +253,9 @@ where
                         break;
                     }
                     for idx in base..(base + 16).min(hi) {
+                        if let Some(f) = &progress {
+                            let _ = f.write_at(&idx.to_le_bytes(), 8 * slot);
+                        }
                         let mut rng = Rng::derive(cfg.seed, stream, idx);
                         let r = catch_unwind(AssertUnwindSafe(|| f(&mut local, &mut rng, idx)));
                         if r.is_err() {
@@ -248,10 +275,16 @@ where
                         ));
                     }
                 }
+                if let Some(f) = &progress {
+                    let _ = f.write_at(&u64::MAX.to_le_bytes(), 8 * slot);
+                }
                 merged.lock().unwrap().merge(local);
             });
         }
     });
+    if progress.is_some() {
+        let _ = std::fs::remove_file(&progress_path);
+    }
     merged.into_inner().unwrap()
 }
 
